@@ -24,7 +24,13 @@ struct world
     std::optional<v2::engine_library> lib;
     sqlite3* conn = nullptr;
     int64_t max_id = 0;
+    size_t letk = 0;   // which of the last-edit times the next written playlist row carries
 };
+
+// last-edit times written into playlist rows (whole seconds since the epoch): ordinary, the epoch, the seconds around it, times
+// before 1970 on and off a day boundary, the last second of year 2199 (a time_point counts nanoseconds in 64 bits: years 1678 .. 2261)
+const long long k_lets[] = {1600000000LL, 0LL, -1LL, 86399LL, -86399LL, -86400LL, -1000000000LL, 7258118399LL, 1LL, -86401LL};
+
 
 template <typename C>
 json ids_json(const C& c)
@@ -61,10 +67,22 @@ json observe(world& w)
     for (auto id : all)
     {
         json x = {{"id", id}};
-        auto row = p.get(id);
+        std::optional<v2::playlist_row> row;
+        bool get_threw = false;
+        try
+        {
+            row = p.get(id);
+        }
+        catch (const std::exception&)
+        {
+            get_threw = true;   // (a stored row that get() cannot read back: logged as a row that matches nothing)
+        }
         x["row"] = row ? json({{"id", row->id}, {"title", row->title}, {"parent", row->parent_list_id}, {"next", row->next_list_id},
-                                {"persisted", row->is_persisted}, {"exported", row->is_explicitly_exported}})
-                       : json({{"id", 0}, {"title", ""}, {"parent", -1}, {"next", -1}, {"persisted", false}, {"exported", false}});
+                                {"persisted", row->is_persisted}, {"exported", row->is_explicitly_exported},
+                                {"let", std::to_string((long long)std::chrono::duration_cast<std::chrono::seconds>(
+                                                           row->last_edit_time.time_since_epoch()).count())}})
+                       : json({{"id", 0}, {"title", ""}, {"parent", -1}, {"next", -1}, {"persisted", false}, {"exported", false},
+                               {"let", get_threw ? "get() threw" : "none"}});
         x["exists"] = p.exists(id);
         x["child_ids"] = ids_json(p.child_ids(id));
         x["descendant_ids"] = ids_json(p.descendant_ids(id));
@@ -227,17 +245,22 @@ int main(int argc, char** argv)
             //  which the database does not maintain, differs between rows so that the two columns cannot be confused)
             bool exported = op.value("exported", title != "b");
             rec["exported"] = exported;
-            v2::playlist_row row{v2::PLAYLIST_ROW_ID_NONE, title, parent, true, next, tp{std::chrono::seconds{1600000000}}, exported};
+            long long let = k_lets[w.letk++ % (sizeof k_lets / sizeof k_lets[0])];
+            rec["let"] = std::to_string(let);
+            v2::playlist_row row{v2::PLAYLIST_ROW_ID_NONE, title, parent, true, next, tp{std::chrono::seconds{let}}, exported};
             f = [&, row] { newid = p.add(row); };
         }
         else if (name == "pl_update")
         {
             bool exported = op.value("exported", title == "a");
             rec["exported"] = exported;
-            f = [&, id, title, parent, next, exported] {
+            long long let = k_lets[w.letk++ % (sizeof k_lets / sizeof k_lets[0])];
+            rec["let"] = std::to_string(let);
+            f = [&, id, title, parent, next, exported, let] {
                 auto row = p.get(id);
                 if (!row)
                     throw std::runtime_error("harness: no such playlist");
+                row->last_edit_time = tp{std::chrono::seconds{let}};
                 row->is_explicitly_exported = exported;
                 row->title = title;
                 row->parent_list_id = parent;
